@@ -17,7 +17,7 @@ pub fn meta() -> Meta {
         rule: "240-byte RAM images (uniform random, opcode-biased, I/O-address-biased operands, all-one-byte fills) x 5 stack sizes x program-size limits x seeded stimulus schedules (key interrupt, continue, CPU/master reset, input setters, board setters with adversarial f32 incl. NaN/inf/subnormal) interleaved with single clock edges, every call under catch_unwind with a clock-edge fuel; after each run all getters, all 256 bus reads and the signal decoders are called and the machine is stepped further; plus direct Bus::write/read of every address x value and board setters. distinct_nontrivial counts distinct (image style, stack size, limit class, final state, micro-address bucket reached) classes",
         exhaustive: false,
         assumptions: vec!["Stacksize::NotSet is outside the quantifier (5 sizes) and is not injected"],
-        floors: vec![("clock_edges", 20_000_000), ("stimuli", 500_000), ("io_bus_accesses_by_programs", 50_000), ("direct_bus_ops", 131_072), ("nan_or_inf_voltages", 1_000), ("micro_addresses_visited", 200)],
+        floors: vec![("clock_edges", 20_000_000), ("stimuli", 500_000), ("io_bus_accesses_by_programs", 50_000), ("direct_bus_ops", 131_072), ("nan_or_inf_voltages", 1_000), ("micro_addresses_visited", 200), ("cases_with_trace_logging", 1_000), ("cases_with_warn_logging", 1_000)],
     }
 }
 
@@ -345,7 +345,26 @@ fn direct_bus(rng: &mut Rng, rep: &mut Report) {
 pub fn run(ctx: &Ctx) -> Report {
     let n = ctx.size(1_500_000, 20_000_000) as usize;
     let batches = (n + 19) / 20;
-    let mut rep = par_items(ctx.threads, batches + 1, ctx.seed, move |i, seed, rep| {
+    // users run with -v .. -vvvv: the arguments of warn!/trace! are then evaluated. Phase 1 runs
+    // with a (dropping) logger at warn level, phase 2 repeats a slice of the work at trace level.
+    crate::util::set_log_level(0);
+    let mut rep = run_phase(ctx, batches, 0);
+    crate::util::set_log_level(2);
+    let warn_rep = run_phase(ctx, (batches / 12).max(50), 2);
+    rep.count("cases_with_warn_logging", warn_rep.evaluations);
+    rep.merge(warn_rep);
+    crate::util::set_log_level(5);
+    let trace_rep = run_phase(ctx, (batches / 60).max(50), 1);
+    crate::util::set_log_level(0);
+    rep.count("cases_with_trace_logging", trace_rep.evaluations);
+    rep.merge(trace_rep);
+    let visited = rep.marks_in(0, 512);
+    rep.count("micro_addresses_visited", visited);
+    rep
+}
+
+fn run_phase(ctx: &Ctx, batches: usize, phase: u64) -> Report {
+    par_items(ctx.threads, batches + 1, ctx.seed ^ (phase * 0x9E37), move |i, seed, rep| {
         let mut rng = Rng::new(seed);
         if i == 0 {
             direct_bus(&mut rng, rep);
@@ -359,13 +378,16 @@ pub fn run(ctx: &Ctx) -> Report {
                 rep.sample(obj![("image_style", c.style), ("image_first_24_bytes", hex(&c.init.ram[..24])), ("stack_size_index", c.ss), ("limit", format!("{:?}", c.limit)), ("operations", c.ops)]);
             }
             if let Some((sig, what)) = run_case(&c, rep) {
-                rep.violate(&sig, what, c.to_json());
+                let mut w = c.to_json();
+                w.set("log_level", J::from(match phase {
+                    0 => 0,
+                    2 => 2,
+                    _ => 5,
+                }));
+                rep.violate(&sig, what, w);
             }
         }
-    });
-    let visited = rep.marks_in(0, 512);
-    rep.count("micro_addresses_visited", visited);
-    rep
+    })
 }
 
 pub fn replay(_ctx: &Ctx, w: &J) -> Report {
@@ -377,6 +399,7 @@ pub fn replay(_ctx: &Ctx, w: &J) -> Report {
         return rep;
     }
     let c = Case::from_json(w);
+    crate::util::set_log_level(w.get("log_level").and_then(|v| v.as_u64()).unwrap_or(5) as u8);
     if let Some((sig, what)) = run_case(&c, &mut rep) {
         rep.violate(&sig, what, c.to_json());
     }
